@@ -279,6 +279,15 @@ type differ struct {
 	f    func(t *rapid.T, w *world) bool
 }
 
+func sortedEnvKeys(m map[string]string) []string {
+	ks := make([]string, 0, len(m))
+	for k := range m {
+		ks = append(ks, k)
+	}
+	sort.Strings(ks)
+	return ks
+}
+
 func anyKey(m map[string]string) (string, bool) {
 	ks := make([]string, 0, len(m))
 	for k := range m {
@@ -292,6 +301,22 @@ func anyKey(m map[string]string) (string, bool) {
 }
 
 var differs = []differ{
+	{"penv-name-into-the-env-namespace", func(t *rapid.T, w *world) bool {
+		// the pipeline variable X versus the pipeline variable literally named "env::X": two different
+		// environments, although the second name is the text of the first one's field name
+		for _, k := range sortedEnvKeys(w.Penv) {
+			if _, shadowed := w.Step.Env[k]; shadowed {
+				continue
+			}
+			if _, clash := w.Penv["env::"+k]; clash {
+				continue
+			}
+			w.Penv["env::"+k] = w.Penv[k]
+			delete(w.Penv, k)
+			return true
+		}
+		return false
+	}},
 	{"command-line-ending", func(t *rapid.T, w *world) bool {
 		switch c := w.Step.Command; {
 		case strings.Contains(c, "\r\n"):
